@@ -43,6 +43,11 @@ type U struct {
 	y []int
 }
 
+type W struct {
+	Bz []byte
+	Rn []rune
+}
+
 type L []int
 type MM map[string]int
 type N int
@@ -87,13 +92,27 @@ var (
 	hid  = []int{100, 200}
 	hidT = &T{A: 99, B: []int{9, 8}, M: map[string]int{"z": 6}}
 	hidM = map[string]int{"a": 7}
+	Bz    = []byte("original")
+	Rn    = []rune("runes")
+	Ss    = []string{"s0", "s1", "s2"}
+	Pw    = &W{Bz: []byte("wbytes"), Rn: []rune("wrunes")}
+	FnBz  func() []byte
+	hidBz = []byte("hidden")
 )
 
 func init() {
 	Fn = func() []int { return hid }
 	FnT = func() *T { return hidT }
 	FnM = func() map[string]int { return hidM }
+	FnBz = func() []byte { return hidBz }
 }
+
+func GetBz() []byte    { return Bz }
+func GetBzSub() []byte { return Bz[1:4] }
+func GetRn() []rune    { return Rn }
+func GetSs() []string  { return Ss }
+func GetPw() *W        { return Pw }
+func GetHidBz() []byte { return hidBz }
 
 func GetSl() []int            { return Sl }
 func GetSl2() []int           { return Sl2 }
@@ -236,6 +255,17 @@ func Dump() string {
 		o += ";Fn=" + rs(Fn()) + rt(FnT(), 3) + rm(FnM())
 	}
 	o += ";hid=" + rs(hid) + rt(hidT, 3) + rm(hidM)
+	o += ";Bz=" + string(Bz[:cap(Bz)]) + "/" + itoa(len(Bz)) + ";Rn=" + string(Rn[:cap(Rn)]) + "/" + itoa(len(Rn))
+	o += ";Ss=" + itoa(len(Ss))
+	for _, x := range Ss {
+		o += "," + x
+	}
+	if Pw == nil || FnBz == nil {
+		o += ";Pw=nil"
+	} else {
+		o += ";Pw=" + string(Pw.Bz) + "," + string(Pw.Rn) + ";FnBz=" + string(FnBz())
+	}
+	o += ";hidBz=" + string(hidBz)
 	return o
 }
 `
@@ -250,6 +280,231 @@ func RunNC(f func())             { f() }
 func SaveAny(cur realm, x any)   { Kept = x; N++ }
 func Render(path string) string  { return "" }
 `
+
+// c07PunSrc is the attacker's pure library: named types over the kinds the
+// victim hands out, each with mutator methods, plus top-level helpers. A /p/
+// method invoked on a receiver stored in the victim realm borrows the victim's
+// authority (borrow rule #2), so the conversion guard of doOpConvert is the
+// only gate against "type-pun by conversion".
+const c07Pun = "gno.land/p/atk/pun"
+
+const c07PunSrc = `package pun
+
+const K = 0
+
+type Bytes []byte
+
+func (b Bytes) Fill(c byte) {
+	for i := range b {
+		b[i] = c
+	}
+}
+
+type Runes []rune
+
+func (r Runes) Fill(c rune) {
+	for i := range r {
+		r[i] = c
+	}
+}
+
+type Ints []int
+
+func (x Ints) Fill(c int) {
+	for i := range x {
+		x[i] = c
+	}
+}
+
+type Strs []string
+
+func (x Strs) Fill(c string) {
+	for i := range x {
+		x[i] = c
+	}
+}
+
+type Map map[string]int
+
+func (m Map) Put(k string, v int) { m[k] = v }
+func (m Map) Del(k string)        { delete(m, k) }
+
+type Arr3 [3]int
+
+func (a *Arr3) Set(i, v int) { a[i] = v }
+
+type Fn func() []int
+
+func (f Fn) Call() []int { return f() }
+
+func FillBytes(b []byte, c byte) {
+	for i := range b {
+		b[i] = c
+	}
+}
+
+func FillRunes(b []rune, c rune) {
+	for i := range b {
+		b[i] = c
+	}
+}
+
+func FillInts(b []int, c int) {
+	for i := range b {
+		b[i] = c
+	}
+}
+
+func FillStrs(b []string, c string) {
+	for i := range b {
+		b[i] = c
+	}
+}
+
+func PutMap(m map[string]int, k string, v int) { m[k] = v }
+func SetArr(a *[3]int, i, v int)                 { a[i] = v }
+`
+
+// the same named types declared by the attacker program itself (in a MsgRun
+// script they are /e/ types, in an attacker realm /r/ types)
+const c07OwnTypes = `type OBytes []byte
+
+func (b OBytes) Fill(c byte) {
+	for i := range b {
+		b[i] = c
+	}
+}
+
+type ORunes []rune
+
+func (r ORunes) Fill(c rune) {
+	for i := range r {
+		r[i] = c
+	}
+}
+
+type OInts []int
+
+func (x OInts) Fill(c int) {
+	for i := range x {
+		x[i] = c
+	}
+}
+
+type OStrs []string
+
+func (x OStrs) Fill(c string) {
+	for i := range x {
+		x[i] = c
+	}
+}
+
+type OMap map[string]int
+
+func (m OMap) Put(k string, v int) { m[k] = v }
+func (m OMap) Del(k string)        { delete(m, k) }
+
+type OArr3 [3]int
+
+func (a *OArr3) Set(i, v int) { a[i] = v }
+
+type OT struct {
+	A  int
+	B  []int
+	P  *vic.T
+	M  map[string]int
+	Ar [2]int
+}
+
+func (t *OT) SetA(v int) { t.A = v }
+func (t *OT) SetB(v int) { t.B[0] = v }
+`
+
+// sources of the type-pun family: a victim value reached through an access
+// path, by kind.
+type c07PunSource struct {
+	Expr string
+	Kind string // bytes runes ints strs map arrp ptT
+	Key  string
+}
+
+var c07PunSources = []c07PunSource{
+	{"vic.Bz", "bytes", ""}, {"vic.GetBz()", "bytes", ""}, {"vic.GetBzSub()", "bytes", ""}, {"vic.FnBz()", "bytes", ""},
+	{"vic.Pw.Bz", "bytes", ""}, {"vic.GetPw().Bz", "bytes", ""}, {"vic.GetHidBz()", "bytes", ""},
+	{"vic.Rn", "runes", ""}, {"vic.GetRn()", "runes", ""}, {"vic.GetPw().Rn", "runes", ""},
+	{"vic.Sl", "ints", ""}, {"vic.GetSl()", "ints", ""}, {"vic.GetSub()", "ints", ""}, {"vic.Pt.B", "ints", ""}, {"vic.GetPt().Bs()", "ints", ""},
+	{"vic.Fn()", "ints", ""}, {"vic.Ls", "ints", ""}, {"vic.GetLs()", "ints", ""}, {"vic.Nest[1]", "ints", ""},
+	{"vic.Ss", "strs", ""}, {"vic.GetSs()", "strs", ""},
+	{"vic.Mp", "map", "a"}, {"vic.GetMp()", "map", "a"}, {"vic.Ms", "map", "a"}, {"vic.GetMs()", "map", "a"}, {"vic.FnM()", "map", "a"}, {"vic.GetPt().Ms()", "map", "z"},
+	{"vic.GetArrPtr()", "arrp", ""}, {"(&vic.Arr)", "arrp", ""},
+	{"vic.GetPt()", "ptT", ""}, {"vic.Pt.P", "ptT", ""}, {"vic.FnT()", "ptT", ""},
+}
+
+// per kind: /p/ type, own type, element literal, /p/ helper call
+var c07PunKinds = map[string]struct{ P, Own, Lit, Helper string }{
+	"bytes": {"pun.Bytes", "OBytes", "'X'", "pun.FillBytes(%s, 'X')"},
+	"runes": {"pun.Runes", "ORunes", "'X'", "pun.FillRunes(%s, 'X')"},
+	"ints":  {"pun.Ints", "OInts", "1234", "pun.FillInts(%s, 1234)"},
+	"strs":  {"pun.Strs", "OStrs", `"X"`, `pun.FillStrs(%s, "X")`},
+	"map":   {"pun.Map", "OMap", "1234", `pun.PutMap(%s, "nw", 1)`},
+	"arrp":  {"pun.Arr3", "OArr3", "1234", "pun.SetArr(%s, 1, 1234)"},
+	"ptT":   {"", "OT", "1234", ""},
+}
+
+// mutations of the converted value c; %[1]s literal, %[2]s existing key,
+// %[3]s the named type. Method-based forms come first.
+var c07PunForms = map[string][]string{
+	"slice": {"c.Fill(%[1]s)", "f := c.Fill\n\tf(%[1]s)", "c[0] = %[1]s", "copy(c, c[1:])", "_ = append(c[:1], %[1]s)", "for i := range c {\n\t\tc[i] = %[1]s\n\t}", "defer c.Fill(%[1]s)"},
+	"map":   {`c.Put("%[2]s", 1234)`, "f := c.Del\n\tf(\"%[2]s\")", `c["%[2]s"] = 1234`, `delete(c, "%[2]s")`, `c.Put("nw", 1)`},
+	"arrp":  {"c.Set(1, 1234)", "f := c.Set\n\tf(0, 1234)", "c[1] = 1234", "*c = %[3]s{9, 9, 9}"},
+	"ptT":   {"c.SetA(1234)", "c.SetB(1234)", "c.A = 1234", "f := c.SetA\n\tf(1234)"},
+}
+
+// conversions that copy: the victim must stay unchanged, the tx may succeed
+var c07PunCopies = []string{
+	"b := []byte(string(vic.GetBz()))\n\tb[0] = 'X'\n\t_ = b",
+	"r := []rune(string(vic.GetRn()))\n\tr[0] = 'X'\n\t_ = r",
+	"c := pun.Bytes(string(vic.Bz))\n\tc.Fill('X')",
+	"c := pun.Bytes([]byte(string(vic.GetHidBz())))\n\tc.Fill('X')",
+	"c := OBytes(string(vic.GetPw().Bz))\n\tc.Fill('X')",
+	"s := string(vic.GetBz()) + string(vic.Rn)\n\t_ = s",
+	"c := pun.Ints(append([]int{}, vic.GetSl()...))\n\tc.Fill(9)",
+	"c := pun.Map{}\n\tfor k, v := range vic.GetMp() {\n\t\tc[k] = v\n\t}\n\tc.Put(\"a\", 5)",
+	"c := pun.Runes(string(vic.GetBz()))\n\tc.Fill('X')",
+	"a := pun.Arr3(*vic.GetArrPtr())\n\ta.Set(1, 9)",
+}
+
+// c07PunBody renders one type-pun attacker. own selects the attacker's own
+// named type instead of the /p/ one; form indexes the mutation (the last index
+// of every kind is the /p/ top-level helper applied without any conversion).
+func c07PunBody(a c07Atk) (decl, body, label string) {
+	src := c07PunSources[a.Path%len(c07PunSources)]
+	k := c07PunKinds[src.Kind]
+	fk := src.Kind
+	if fk == "bytes" || fk == "runes" || fk == "ints" || fk == "strs" {
+		fk = "slice"
+	}
+	forms := c07PunForms[fk]
+	n := len(forms)
+	if k.Helper != "" {
+		n++
+	}
+	fi := a.Form % n
+	if fi == len(forms) {
+		return "", fmt.Sprintf(k.Helper, src.Expr), "pun:" + src.Kind + ":helper-func"
+	}
+	typ, tgt := k.P, "p"
+	if a.Alias || typ == "" {
+		typ, tgt = k.Own, "own"
+		decl = c07OwnTypes
+	}
+	conv := typ + "(" + src.Expr + ")"
+	if src.Kind == "arrp" || src.Kind == "ptT" {
+		conv = "(*" + typ + ")(" + src.Expr + ")"
+	}
+	body = "c := " + conv + "\n\t" + strings.NewReplacer("%[1]s", k.Lit, "%[2]s", src.Key, "%[3]s", typ).Replace(forms[fi])
+	return decl, body, fmt.Sprintf("pun:%s:%s:%d", src.Kind, tgt, fi)
+}
 
 // ---------------------------------------------------------------------------
 // attacker grammar
@@ -345,6 +600,19 @@ var c07Paths = []c07Path{
 	{Expr: "vic.Arr[:]", Kind: "sl"},
 	{Expr: "vic.GetArrPtr()[:]", Kind: "sl"},
 	{Expr: "vic.CGetSl(cross(cur))", Kind: "sl", Cross: true},
+	// byte, rune and string slices (builtins have string-specific forms)
+	{Expr: "vic.Bz", Kind: "bz"},
+	{Expr: "vic.GetBz()", Kind: "bz"},
+	{Expr: "vic.GetBzSub()", Kind: "bz"},
+	{Expr: "vic.FnBz()", Kind: "bz"},
+	{Expr: "vic.Pw.Bz", Kind: "bz"},
+	{Expr: "vic.GetPw().Bz", Kind: "bz"},
+	{Expr: "vic.GetHidBz()", Kind: "bz"},
+	{Expr: "vic.Rn", Kind: "rn"},
+	{Expr: "vic.GetRn()", Kind: "rn"},
+	{Expr: "vic.GetPw().Rn", Kind: "rn"},
+	{Expr: "vic.Ss", Kind: "ss"},
+	{Expr: "vic.GetSs()", Kind: "ss"},
 	// maps
 	{Expr: "vic.Mp", Kind: "mp", Key: "a"},
 	{Expr: "vic.GetMp()", Kind: "mp", Key: "a"},
@@ -388,6 +656,9 @@ var c07Writes = map[string][]string{
 	"mp":  {`%[1]s["%[2]s"] = 1234`, `%[1]s["nw"] = 1`, `delete(%[1]s, "%[2]s")`, `%[1]s["%[2]s"]++`},
 	"pt":  {"%[1]s.A = 1234", "%[1]s.B = nil", "%[1]s.B[0] = 1234", "*%[1]s = *vic.GetHidT()", "%[1]s.Ar[1] = 1234", `%[1]s.M["z"] = 1234`, "%[1]s.P = %[1]s"},
 	"pi":  {"*%[1]s = 1234", "*%[1]s += 1"},
+	"bz":  {"%[1]s[0] = 'X'", `copy(%[1]s, "zz")`, "_ = append(%[1]s[:1], 'X')", `_ = append(%[1]s[:1], "yz"...)`, "copy(%[1]s, []byte{1, 2})", "%[1]s[1]++"},
+	"rn":  {"%[1]s[0] = 'X'", `copy(%[1]s, []rune("zz"))`, "_ = append(%[1]s[:1], 'X')", "%[1]s[1] += 2"},
+	"ss":  {`%[1]s[0] = "X"`, `copy(%[1]s, []string{"p", "q"})`, `_ = append(%[1]s[:1], "X")`, `%[1]s[1] += "x"`},
 	"pa":  {"%[1]s[1] = 1234", "*%[1]s = [3]int{9, 9, 9}"},
 }
 
@@ -537,6 +808,13 @@ func c07Body(a c07Atk) (decl, body string, needCur, must bool, label string) {
 	case "benign":
 		c := c07Benign[a.Form%len(c07Benign)]
 		return c.Decl, c.Stmt, strings.Contains(c.Stmt, "cross(cur)"), false, "benign"
+	case "pun":
+		// convert a victim value to a named type and mutate through it: either
+		// the conversion or the write has to be refused
+		d, b, l := c07PunBody(a)
+		return d, b, false, true, l
+	case "puncopy":
+		return c07OwnTypes, c07PunCopies[a.Form%len(c07PunCopies)], false, false, "puncopy"
 	}
 	panic("bad attacker kind " + a.Kind)
 }
@@ -552,7 +830,7 @@ func c07Program(a c07Atk, pkg string) (src string, run bool, ok bool) {
 	run = strings.HasPrefix(ctx, "run")
 	shape := strings.TrimPrefix(strings.TrimPrefix(ctx, "run"), "realm")
 	shape = strings.TrimPrefix(shape, "-")
-	imports := "import (\n\t\"gno.land/r/vv/mid\"\n\t\"gno.land/r/vv/vic\"\n)\n\nvar _ = mid.N\nvar _ = vic.X\n\n"
+	imports := "import (\n\t\"gno.land/p/atk/pun\"\n\t\"gno.land/r/vv/mid\"\n\t\"gno.land/r/vv/vic\"\n)\n\nconst _ = pun.K\n\nvar _ = mid.N\nvar _ = vic.X\n\n"
 	var sb strings.Builder
 	if run {
 		sb.WriteString("package main\n\n")
@@ -614,7 +892,15 @@ func c07Program(a c07Atk, pkg string) (src string, run bool, ok bool) {
 
 func c07DrawAtk(rt *rapid.T) c07Atk {
 	a := c07Atk{Ctx: rapid.SampledFrom(c07Contexts).Draw(rt, "ctx")}
-	switch k := rapid.IntRange(0, 19).Draw(rt, "kind"); {
+	switch k := rapid.IntRange(0, 25).Draw(rt, "kind"); {
+	case k >= 20 && k <= 24:
+		a.Kind = "pun"
+		a.Path = rapid.IntRange(0, len(c07PunSources)-1).Draw(rt, "punsrc")
+		a.Form = rapid.IntRange(0, 7).Draw(rt, "punform")
+		a.Alias = rapid.IntRange(0, 2).Draw(rt, "own") == 0
+	case k == 25:
+		a.Kind = "puncopy"
+		a.Form = rapid.IntRange(0, len(c07PunCopies)-1).Draw(rt, "form")
 	case k <= 10:
 		a.Kind = "write"
 		a.Path = rapid.IntRange(0, len(c07Paths)-1).Draw(rt, "path")
@@ -717,6 +1003,10 @@ func c07Exec(ctx *vk.Ctx, c c07Case) error {
 		r, err := ch.Deploy(c07Vic, fmt.Sprintf(c07VicSrc, c.Params[0], c.Params[1], c.Params[2]))
 		if err != nil || r.Error != nil {
 			return fmt.Errorf("harness: victim deployment failed: %v %s", err, rkErr(r))
+		}
+		r, err = ch.Deploy(c07Pun, c07PunSrc)
+		if err != nil || r.Error != nil {
+			return fmt.Errorf("harness: pun library deployment failed: %v %s", err, rkErr(r))
 		}
 		r, err = ch.Deploy(c07Mid, c07MidSrc)
 		if err != nil || r.Error != nil {
@@ -851,7 +1141,7 @@ func c07Exec(ctx *vk.Ctx, c c07Case) error {
 		if out.Failed {
 			fc := c07FailClass(out.Msg)
 			ctx.Class("abort:" + fc)
-			if fc == "other" && a.Kind != "benign" {
+			if fc == "other" && a.Kind != "benign" && a.Kind != "puncopy" {
 				// the attacker must be stopped by a VM defence, not by an
 				// unrelated error of the generated program (a generator bug
 				// would make the check vacuous)
@@ -862,6 +1152,10 @@ func c07Exec(ctx *vk.Ctx, c c07Case) error {
 		}
 		ctx.Class("kind:" + label)
 		ctx.Class("ctx:" + a.Ctx)
+		if a.Kind == "pun" {
+			ctx.Class("family:type-pun")
+			nt++
+		}
 		if a.Kind == "write" && strings.Count(c07Paths[a.Path].Expr, ".")+strings.Count(c07Paths[a.Path].Expr, "[") >= 2 {
 			nt++
 		}
@@ -876,7 +1170,7 @@ func c07OneLine(a c07Atk) string {
 	return body
 }
 
-const c07Rule = "rapid: one victim realm instance (exported vars of every kind, getters/methods/closures returning pointers, sub-slices, maps, interfaces; callback-invoking functions; no code of V writes; 3 drawn value parameters) + mid realm, then 4-9 attackers on the same chain, each = kind (write through one of 112 access paths x 2-7 write forms x optional local alias | whole-variable assignment | write to state V hands to a callback | construction of a V-declared type | persisting a realm value | benign read/copy/retain) x one of 27 contexts (MsgRun script or deployed attacker realm; inline, helper function, closure, stored closure, defer, init, method, callback run by V / by V after a cross / by a third realm, top-level function passed as callback, method invoked by V through an interface, nested cross); after every attacker tx, success or failure: V.Dump() by qeval unchanged, every pre-existing oid:<V> object unchanged once ObjectInfo bookkeeping and embedded child hashes are masked, none missing; writes that target a V object, spec-listed constructions and realm-value persistence must abort; non-trivial = some write attacker uses a path of >= 2 selector/index steps"
+const c07Rule = "rapid: one victim realm instance (exported vars of every kind, getters/methods/closures returning pointers, sub-slices, maps, interfaces; callback-invoking functions; no code of V writes; 3 drawn value parameters) + mid realm, then 4-9 attackers on the same chain, each = kind (write through one of 124 access paths x 2-7 write forms x optional local alias | type-pun: convert a victim value (32 sources: []byte, []rune, []int, []string, maps, *[3]int, *T) to a /p/ library type or an own named type and mutate via method / method value / defer / index / copy / append / range, or pass it to a /p/ helper | copying conversions (benign) | whole-variable assignment | write to state V hands to a callback | construction of a V-declared type | persisting a realm value | benign read/copy/retain) x one of 27 contexts (MsgRun script or deployed attacker realm; inline, helper function, closure, stored closure, defer, init, method, callback run by V / by V after a cross / by a third realm, top-level function passed as callback, method invoked by V through an interface, nested cross); after every attacker tx, success or failure: V.Dump() by qeval unchanged, every pre-existing oid:<V> object unchanged once ObjectInfo bookkeeping and embedded child hashes are masked, none missing; writes that target a V object, spec-listed constructions and realm-value persistence must abort; non-trivial = some write attacker uses a path of >= 2 selector/index steps"
 
 func TestC07_Authority(t *testing.T) {
 	vk.Run(t, vk.Spec[c07Case]{ID: "C07", Name: "TestC07_Authority", Rule: c07Rule, Draw: c07Draw, Exec: c07Exec})
@@ -887,7 +1181,7 @@ func TestC07_Authority(t *testing.T) {
 // indices), plus every whole-variable write, argument callback, construction,
 // realm-value persistence and benign program in several contexts.
 func TestC07_Enum(t *testing.T) {
-	r := vk.Open(t, "C07", "TestC07_Enum", "enumeration: every context x every access path (form = path index mod #forms, alias = parity) and every varwrite/argcb/construct/persist/benign program x 8 contexts, in batches of 12 attackers per victim instance; quick tier takes every 41st attacker of the sweep starting at VERIF_SEED mod 41")
+	r := vk.Open(t, "C07", "TestC07_Enum", "enumeration: every context x every access path (form = path index mod #forms, alias = parity) and every varwrite/argcb/construct/persist/benign program x 8 contexts, in batches of 12 attackers per victim instance; plus the type-pun family (every source x 8 mutation forms x /p/ or own named type, contexts rotating) and the copying conversions; quick tier takes every 41st attacker of the sweep (every 11th of the type-pun family) starting at VERIF_SEED mod 41 (mod 11)")
 	defer r.Close()
 	if vk.Replaying() {
 		t.Skip()
@@ -912,19 +1206,50 @@ func TestC07_Enum(t *testing.T) {
 			all = append(all, c07Atk{Kind: "benign", Ctx: cx, Form: i})
 		}
 	}
+	for _, cx := range some {
+		for i := range c07PunCopies {
+			all = append(all, c07Atk{Kind: "puncopy", Ctx: cx, Form: i})
+		}
+	}
+	// type-pun family: every source x every mutation form, own/p type and
+	// context rotating
+	for si := range c07PunSources {
+		for f := 0; f < 8; f++ {
+			all = append(all, c07Atk{Kind: "pun", Ctx: c07Contexts[(si*8+f)%len(c07Contexts)], Path: si, Form: f, Alias: (si+f)%3 == 0})
+			all = append(all, c07Atk{Kind: "pun", Ctx: some[(si+f)%len(some)], Path: si, Form: f, Alias: (si+f)%3 == 1})
+		}
+	}
 	for ci, cx := range c07Contexts {
 		for pi := range c07Paths {
 			all = append(all, c07Atk{Kind: "write", Ctx: cx, Path: pi, Form: pi + ci, Alias: (pi+ci)%2 == 1})
 		}
 	}
-	stride, off := 1, 0
-	if !r.Thorough() {
-		stride = 41
-		off = int(r.Seed % 41)
-	}
+	// quick tier: every 41st attacker of the sweep, every 11th of the type-pun
+	// family, both starting at an offset derived from VERIF_SEED
 	var sel []c07Atk
-	for i := off; i < len(all); i += stride {
-		sel = append(sel, all[i])
+	if only := os.Getenv("C07_ENUM_KINDS"); only != "" { // calibration aid
+		for _, a := range all {
+			if strings.Contains(only, a.Kind) {
+				sel = append(sel, a)
+			}
+		}
+	} else if r.Thorough() {
+		sel = all
+	} else {
+		np, nr := 0, 0
+		for _, a := range all {
+			if a.Kind == "pun" {
+				if np%11 == int(r.Seed%11) {
+					sel = append(sel, a)
+				}
+				np++
+			} else {
+				if nr%41 == int(r.Seed%41) {
+					sel = append(sel, a)
+				}
+				nr++
+			}
+		}
 	}
 	r.Extra("exhaustive", false)
 	r.Extra("grid_size", len(all))
